@@ -707,12 +707,87 @@ func (fc *fnCtx) callWrites(st *State, fr *frame, call *ssa.Call, inLoop func(ss
 	} else {
 		argVals = c.Args
 	}
-	for _, m := range spec.modifies {
+	for _, m := range spec.modifiesFor() {
 		locs := m.E.(*CallE).Args
 		for _, loc := range locs {
 			region, objExpr := fc.locRegion(st, loc, spec, nil, nil)
 			if region == "" {
 				continue
+			}
+			if fe, isField := loc.(*FieldE); isField {
+				done := false
+				func() {
+					defer func() {
+						if r := recover(); r != nil {
+							switch r.(type) {
+							case specError, translateError:
+								return
+							}
+							panic(r)
+						}
+					}()
+					sc := &specCtx{fc: fc, st: st, heap: st.heap, now: st.now, vars: map[string]Val{}, params: map[string]Val{}}
+					if recv != nil {
+						sc.vars["this"] = *recv
+					}
+					for i, p := range m.params {
+						if i < len(argVals) && !inLoop(argVals[i]) {
+							sc.params[p] = fc.val(st, argVals[i])
+						}
+					}
+					obj := sc.eval(fe.X)
+					named, ok := derefNamed(obj.GT)
+					if !ok {
+						return
+					}
+					stt, ok := named.Underlying().(*types.Struct)
+					if !ok {
+						return
+					}
+					for i := 0; i < stt.NumFields(); i++ {
+						if f := stt.Field(i); f.Name() == fe.Name {
+							rn := fieldRegion(named.Origin(), f.Name())
+							fc.region(st, rn, regionArraySort(sortOfType(f.Type())))
+							precise(rn, obj.T)
+							done = true
+						}
+					}
+				}()
+				if done {
+					continue
+				}
+			}
+			if region == "map.*" && objExpr != nil {
+				fc.mapRegions(st)
+				done := false
+				func() {
+					defer func() {
+						if r := recover(); r != nil {
+							switch r.(type) {
+							case specError, translateError:
+								return
+							}
+							panic(r)
+						}
+					}()
+					sc := &specCtx{fc: fc, st: st, heap: st.heap, now: st.now, vars: map[string]Val{}, params: map[string]Val{}}
+					if recv != nil {
+						sc.vars["this"] = *recv
+					}
+					for i, p := range m.params {
+						if i < len(argVals) && !inLoop(argVals[i]) {
+							sc.params[p] = fc.val(st, argVals[i])
+						}
+					}
+					obj := sc.eval(objExpr)
+					for _, r := range []string{"map.dom", "map.get", "map.card"} {
+						precise(r, obj.T)
+					}
+					done = true
+				}()
+				if done {
+					continue
+				}
 			}
 			if objExpr == nil || strings.HasPrefix(region, "field:") || region == "*" || region == "map.*" {
 				if region == "*" {
@@ -791,7 +866,27 @@ func (fc *fnCtx) callWrites(st *State, fr *frame, call *ssa.Call, inLoop func(ss
 						}
 						if ts := fc.e.contracts.Types[pkg+"."+named.Obj().Name()]; ts != nil && ts.Models[strings.TrimPrefix(region, "M.")] != nil {
 							whole[region] = true
+							for m := range fc.e.contracts.Models {
+								if _, ok := fc.regionSort["M."+m]; ok {
+									whole["M."+m] = true
+								}
+							}
 							if stt, ok := named.Underlying().(*types.Struct); ok {
+								for i := 0; i < stt.NumFields(); i++ {
+									f := stt.Field(i)
+									if fc.e.immutableFn(named, f.Name()) != "" {
+										continue
+									}
+									rn := fieldRegion(named.Origin(), f.Name())
+									fc.region(st, rn, regionArraySort(sortOfType(f.Type())))
+									precise(rn, obj.T)
+									if _, isMap := f.Type().Underlying().(*types.Map); isMap {
+										fc.mapRegions(st)
+										whole["map.dom"], whole["map.get"], whole["map.card"] = true, true, true
+									}
+								}
+							}
+							if stt, ok := named.Underlying().(*types.Struct); ok && false {
 								var walk func(e Expr)
 								walk = func(e Expr) {
 									switch x := e.(type) {
